@@ -16,7 +16,7 @@ use serde_json::json;
 pub const SPEC: PropSpec = PropSpec {
 	id: "C17",
 	level: "fault_enumeration",
-	rule: "case = valid container file (written by the crate or by the reference writer; 6 codecs; 1..6 blocks; every value occupies >= 1 byte) with known values, then per case one damage family: (a) truncation at EVERY byte offset when the file is <= 4 KiB, else 160 offsets stratified over magic / metadata / sync / block headers / payload / trailing sync; (b) single-byte corruption at every offset (<= 1.5 KiB files; sampled above) x {bit flip, 0x00, 0xFF, +1}; (c) block count / size varints re-encoded to smaller and larger values, trailing sync and header sync bytes altered, snappy CRC altered; (d) an io::Error injected at every read-call index of a chunked reader. After the first Err the monitor keeps calling 16 more times. Verdicts: every yielded value is the next original value (truncation, I/O faults); no panic / death / CPU overrun for any damage; a file with altered sync / count / size / CRC is never read to the end without an Err; after an injected I/O error and after a framing error everything that follows is Ok(None); a truncated file does not keep producing errors forever. distinct by hash(file, damage)",
+	rule: "case = valid container file (written by the crate or by the reference writer; 6 codecs; 1..6 blocks; every value occupies >= 1 byte) with known values, then per case one damage family: (a) truncation at EVERY byte offset when the file is <= 4 KiB, else 160 offsets stratified over magic / metadata / sync / block headers / payload / trailing sync; (b) single-byte corruption at every offset (<= 1.5 KiB files; sampled above) x {bit flip, 0x00, 0xFF, +1}; (c) block count / size varints re-encoded to smaller and larger values, trailing sync and header sync bytes altered, snappy CRC altered; (d) an io::Error injected at every read-call index of a chunked reader. After the first Err the monitor keeps calling 16 more times. Verdicts: every yielded value is the next original value (truncation, I/O faults); no panic / death / CPU overrun for any damage; a file with altered sync / count / size / CRC is never read to the end without an Err; after an injected I/O error and after a framing error everything that follows is Ok(None); a truncated file does not keep producing errors forever. Every truncated and every field-rewritten file is read a second time through one more public entry point drawn per reading (deserialize_next_borrowed / deserialize_next over the slice, deserialize_next over a 7-byte BufReader, the deserialize and deserialize_borrowed iterators re-created after every item) under the same verdicts (counters alt_api_driven:*). distinct by hash(file, damage)",
 	assumptions: &["payload corruption that still decodes under the null codec is not detectable in principle and is not demanded"],
 	cases: (50_000_000, 4_000_000_000),
 	secs: (45, 900),
